@@ -38,6 +38,10 @@ EXPS = [
   "index += len(scoreBuf)", "index = len(scoreBuf) + index"),
  ("P10", "P", META, "decodeMetadata: `var head uint64 = 0` / `var tail uint64 = 0` -> `var head, tail uint64`",
   "var head uint64 = 0\n\tvar tail uint64 = 0", "var head, tail uint64"),
+ ("P11", "P", TYPES, "Get: operands of `&&` swapped (`expire <= time.Now().UnixNano() && expire > 0`)",
+  "if expire > 0 && expire <= time.Now().UnixNano() {", "if expire <= time.Now().UnixNano() && expire > 0 {"),
+ ("P12", "P", META, "decodeMetadata: `dataType == List` -> `List == dataType`",
+  "if dataType == List {", "if List == dataType {"),
  ("C1", "C", META, "metadata.encode: expire and version written in the other order",
   "index += binary.PutVarint(buf[index:], md.expire)\n\tindex += binary.PutVarint(buf[index:], md.version)",
   "index += binary.PutVarint(buf[index:], md.version)\n\tindex += binary.PutVarint(buf[index:], md.expire)"),
@@ -51,8 +55,8 @@ EXPS = [
   "maxMetadataSize = 1 + binary.MaxVarintLen64*2 + binary.MaxVarintLen32", "maxMetadataSize = 1 + binary.MaxVarintLen64 + binary.MaxVarintLen32"),
  ("C6", "C", META, "decodeMetadata: `index += n` after the version dropped",
   "version, n := binary.Varint(buf[index:])\n\tindex += n", "version, n := binary.Varint(buf[index:])"),
- ("C7", "C", META, "decodeMetadata: `size: uint32(size)` -> `size: uint32(version)`",
-  "size:     uint32(size),", "size:     uint32(version),"),
+ ("C7", "C", META, "decodeMetadata: `size: uint32(size)` -> `size: uint32(size) + 1`",
+  "size:     uint32(size),", "size:     uint32(size) + 1,"),
  ("C8", "C", META, "zsetInternalKey.encodeWithScore: member copied before the score",
   None, None),
  ("C9", "C", META, "listInternalKey.encode: version window `buf[index:index+8]` -> `buf[index:index+4]` (Go panics in PutUint64)",
